@@ -15,6 +15,8 @@ import (
 	"strconv"
 	"strings"
 	"testing"
+
+	"verifharness/chainx"
 )
 
 // Run holds the files of one harness run.
@@ -80,6 +82,7 @@ func (r *Run) Close() {
 	for _, f := range r.files {
 		f.Close()
 	}
+	chainx.WriteCover()
 	b, _ := json.MarshalIndent(map[string]any{"stats": r.Stats, "samples": r.Samples, "violations": r.Viol}, "", " ")
 	_ = os.WriteFile(filepath.Join(r.OutDir, "stats.json"), b, 0o644)
 }
